@@ -685,9 +685,15 @@ pub enum TokRule {
     PubFnWithoutParams,
     /// a public function without parameters that is called from main
     CalledPubFnWithoutParams,
+    /// a const whose value names a const that is defined later
+    ConstForwardReference,
+    /// a const whose value names itself
+    ConstSelfReference,
 }
 
-pub const TOK_RULES: [TokRule; 6] = [
+pub const TOK_RULES: [TokRule; 8] = [
+    TokRule::ConstForwardReference,
+    TokRule::ConstSelfReference,
     TokRule::UnknownField,
     TokRule::UnknownVariant,
     TokRule::UnknownTypeName,
@@ -722,7 +728,7 @@ pub fn apply_tok(toks: &[String], defs: &Defs, rule: TokRule, target: usize) -> 
                 }
             }
         }
-        TokRule::UnusedPrivateFn | TokRule::PubFnWithoutParams => sites.push(toks.len()),
+        TokRule::UnusedPrivateFn | TokRule::PubFnWithoutParams | TokRule::ConstForwardReference | TokRule::ConstSelfReference => sites.push(toks.len()),
         TokRule::CalledPubFnWithoutParams => {
             // the opening brace of main's body
             if let Some(m) = (1..toks.len()).find(|i| toks[*i] == "main" && toks[*i - 1] == "fn") {
@@ -747,6 +753,16 @@ pub fn apply_tok(toks: &[String], defs: &Defs, rule: TokRule, target: usize) -> 
         }
         TokRule::PubFnWithoutParams => {
             for t in ["pub", "fn", "noparams_zz", "(", ")", "->", "u8", "{", "1u8", "}"] {
+                out.push(t.into());
+            }
+        }
+        TokRule::ConstForwardReference => {
+            for t in ["const", "fwd_a_zz", ":", "u8", "=", "max", "(", "fwd_b_zz", ",", "1u8", ")", ";", "const", "fwd_b_zz", ":", "u8", "=", "2u8", ";"] {
+                out.push(t.into());
+            }
+        }
+        TokRule::ConstSelfReference => {
+            for t in ["const", "self_zz", ":", "usize", "=", "self_zz", "+", "1usize", ";"] {
                 out.push(t.into());
             }
         }
